@@ -535,6 +535,10 @@ class World:
                 self.sit[f"C19.stop_with_clients.{min(connected, 3)}"] += 1
                 await self.settle()
                 self.note("stop", "connected", connected, "task done", task.done())
+                if srv.is_serving():
+                    self.violate("C19.closed_after", f"is_serving() is still true after the serving task was cancelled ({connected} client(s) connected, task done: {task.done()})")
+                else:
+                    self.sit["C19.not_serving_right_after_stop"] += 1
                 if connected == 0 and cli_task is None and not task.done():
                     self.violate("C19.stops", "serving task cancelled with no client connected, but it has not completed at quiescence")
                 continue
